@@ -38,7 +38,9 @@ STRATA = [
     ("bigger", 500, 5000),
     ("grid4", 1800, 18000),
     ("grid8", 1800, 18000),
+    ("scale", 5, 40),
 ]
+BATCH = {"scale": 1}
 REQUIRED_EVENTS = {"any": ["sp.distance", "sp.path", "sp.infeasible-iff-unreachable", "sp.unbounded-iff-negcycle",
                            "sp.matrix-entries", "sp.agree", "sp.max_cost", "sp.max_iter", "dfs.path", "reach.set",
                            "grid.distance", "grid.path", "l2.reconstruct_path"]}
@@ -154,6 +156,25 @@ def _limits(rng, n, edges, s, goals):
 
 
 def gen(stratum, rng, tier):
+    if stratum == "scale":
+        # a corridor of thousands of nodes with dearer shortcuts (true distances known by construction), and a
+        # serpentine grid: shortest paths with thousands of nodes, under the interpreter's default recursion limit
+        n = rng.randint(1500, 3500)
+        order = list(range(n))
+        rng.shuffle(order)
+        w = [rng.randint(1, 3) for _ in range(n - 1)]
+        edges = [(order[i], order[i + 1], w[i]) for i in range(n - 1)]
+        for _ in range(rng.randint(0, 8)):
+            i = rng.randrange(n - 60)
+            j = i + rng.randint(3, 50)
+            edges.append((order[i], order[j], sum(w[i:j]) + rng.randint(1, 4)))
+        for _ in range(rng.randint(0, 8)):
+            i = rng.randrange(1, n)
+            edges.append((order[i], order[rng.randrange(i)], rng.randint(0, 3)))  # back arcs never help
+        rng.shuffle(edges)
+        t = n - 1 - rng.choice([0, 0, 2, 40])
+        return {"kind": "scale", "n": n, "edges": edges, "s": order[0], "t": order[t], "dist": sum(w[:t]), "hops": t,
+                "grid_rows": rng.choice([21, 31, 41]), "grid_cols": rng.randint(30, 60)}
     if stratum in ("grid4", "grid8"):
         return _gen_grid(rng, 8 if stratum == "grid8" else 4)
     negw = None
@@ -976,9 +997,93 @@ def _run_grid(case, obs):
     return d is not None and d != (0, 0) and (has_obstacle or bool(costs))
 
 
+def _run_scale(case, obs):
+    from vf.common import call, is_crash, status_name
+
+    n, edges, s, t, dist, hops = case["n"], case["edges"], case["s"], case["t"], case["dist"], case["hops"]
+    adj = {}
+    wt = {}
+    for u, v, w in edges:
+        adj.setdefault(u, []).append((v, w))
+        wt[(u, v)] = min(w, wt.get((u, v), w))
+    B = 60 * (n + len(edges)) + 2_000_000
+
+    def judge(who, res, want, weighted=True, hop_exact=True):
+        if is_crash(res):
+            return
+        obs.event("scale.judged")
+        if status_name(res) != "OPTIMAL" and not (who == "dfs" and status_name(res) == "FEASIBLE"):
+            obs.violate("scale.status", f"{who}: status {status_name(res)}, a path of {hops} arcs exists (n={n})")
+            return
+        path = res.solution
+        if not isinstance(path, (list, tuple)) or not path or path[0] != s or path[-1] != t:
+            obs.violate("scale.path-ends", f"{who}: path of {len(path) if hasattr(path, '__len__') else '?'} nodes does not run {s} -> {t}")
+            return
+        tot = 0
+        for a, b in zip(path, path[1:]):
+            if (a, b) not in wt:
+                obs.violate("scale.path-edge", f"{who}: {a}->{b} is not an arc")
+                return
+            tot += wt[(a, b)]
+        got = res.objective
+        if weighted:
+            if got != want or tot != want:
+                obs.violate("scale.distance", f"{who}: reported {got}, path weighs {tot}, shortest distance {want}")
+        elif hop_exact and (got != len(path) - 1 or got != want):
+            obs.violate("scale.hops", f"{who}: reported {got}, path has {len(path) - 1} arcs, fewest {want}")
+        elif not hop_exact and got != len(path) - 1:
+            obs.violate("scale.hops", f"{who}: reported {got}, path has {len(path) - 1} arcs")
+
+    nb_w = lambda x: adj.get(x, [])
+    nb = lambda x: [v for v, _ in adj.get(x, [])]
+    dj, ast, bf_mod, bfs_m = _m["dijkstra"], _m["a_star"], _m["bellman_ford"], _m["bfs"]
+    judge("dijkstra", call(obs, dj.dijkstra, s, t, nb_w, budget=B, what="dijkstra[scale]"), dist)
+    judge("astar[h=0]", call(obs, ast.astar, s, t, nb_w, lambda x: 0, budget=B, what="astar[scale]"), dist)
+    judge("dijkstra_edges", call(obs, dj.dijkstra_edges, n, list(edges), s, target=t, backend="python", budget=B,
+                                 what="dijkstra_edges[scale]"), dist)
+    # fewest arcs: breadth first on the same arcs (shortcuts and back arcs are arcs too)
+    from collections import deque
+
+    lev = {s: 0}
+    dq = deque([s])
+    while dq:
+        x = dq.popleft()
+        for y in nb(x):
+            if y not in lev:
+                lev[y] = lev[x] + 1
+                dq.append(y)
+    judge("bfs", call(obs, bfs_m.bfs, s, t, nb, budget=B, what="bfs[scale]"), lev[t], weighted=False)
+    judge("dfs", call(obs, bfs_m.dfs, s, t, nb, budget=B, what="dfs[scale]"), None, weighted=False, hop_exact=False)
+    pairs = [(u, v) for u, v, _ in edges]
+    judge("bfs_edges", call(obs, bfs_m.bfs_edges, n, pairs, s, target=t, backend="python", budget=B, what="bfs_edges[scale]"),
+          lev[t], weighted=False)
+    # serpentine grid: one corridor through every second row
+    R, C = case["grid_rows"], case["grid_cols"]
+    grid = [[0] * C for _ in range(R)]
+    for r in range(1, R, 2):
+        for c in range(C):
+            grid[r][c] = 1
+        grid[r][C - 1 if (r // 2) % 2 == 0 else 0] = 0
+    want = (R // 2 + 1) * (C - 1) + 2 * (R // 2)
+    goal = (R - 1, C - 1 if (R // 2) % 2 == 0 else 0)
+    res = call(obs, ast.astar_grid, grid, (0, 0), goal, budget=40 * B, what="astar_grid[scale]")
+    if not is_crash(res):
+        obs.event("scale.judged")
+        p = res.solution
+        ok = (status_name(res) == "OPTIMAL" and isinstance(p, (list, tuple)) and p and tuple(p[0]) == (0, 0) and tuple(p[-1]) == goal
+              and all(abs(a[0] - b[0]) + abs(a[1] - b[1]) == 1 and grid[b[0]][b[1]] == 0 for a, b in zip(p, p[1:])))
+        if not ok or abs(res.objective - want) > 1e-9 or len(p) - 1 != want:
+            obs.violate("scale.grid", f"astar_grid {R}x{C} serpentine: status {status_name(res)}, objective {res.objective!r}, "
+                        f"{len(p) - 1 if hasattr(p, '__len__') else '?'} steps, shortest {want}")
+    return True
+
+
 def run(case, obs):
     obs.mode("exact")
     _SH.reset()
+    if case["kind"] == "scale":
+        obs.nontrivial = _run_scale(case, obs)
+        return
     try:
         if case["kind"] == "g":
             obs.nontrivial = _run_graph(case, obs)
